@@ -25,6 +25,7 @@ When the code is repaired these theorems stop checking (and the oracles `Riemann
 import EPV.Gen.R2Exp
 import EPV.Gen.R2PM
 import EPV.Lemmas.Riemann2D
+import EPV.Lemmas.Bridge.SemiSu
 import EPV.Tactics
 
 set_option linter.all false
@@ -45,22 +46,34 @@ def expM2 (p : R2Exp.P) : ℝ :=
 
 theorem exp_Ms (p : R2Exp.P) (hg : 1 < p.g) (hp : 0 < p.p0) (hr : 0 < p.r0) (hM : 0 ≤ p.M0) :
     R2Exp.Ms p = Real.sqrt (expM2 p) := by
+  -- the code recomputes the Mach number from the velocity components: put that expression (documented
+  -- form) for M₀ on the right, then both sides agree up to normalisation
+  have hm := recomputed_mach p.M0 (p.g * p.p0 / p.r0) (p.theta0 / 180 * Real.pi) hM (c2_pos hg hp hr)
   simp only [epv_tree, epv_leaf, expM2]
-  rw [recomputed_mach _ _ _ hM (c2_pos hg hp hr), Real.rpow_two]
+  conv_rhs => rw [← hm]
+  epv_semi_su_eq
 
 theorem exp_turning_coded (p : R2Exp.P) (hg : 1 < p.g) (hp : 0 < p.p0) (hr : 0 < p.r0) (hM : 0 ≤ p.M0) :
     R2Exp.deflection p = R2PM.nu ⟨p.M0, p.g⟩ - R2PM.nu ⟨R2Exp.Ms p, p.g⟩ := by
-  simp only [epv_tree, epv_leaf]
-  rw [recomputed_mach _ _ _ hM (c2_pos hg hp hr)]
+  have hm := recomputed_mach p.M0 (p.g * p.p0 / p.r0) (p.theta0 / 180 * Real.pi) hM (c2_pos hg hp hr)
+  have key : ∀ m : ℝ, m = p.M0 →
+      R2Exp.deflection p = R2PM.nu ⟨m, p.g⟩ - R2PM.nu ⟨R2Exp.Ms p, p.g⟩ := by
+    intro m hm'
+    rw [← hm] at hm'
+    subst hm'
+    simp only [epv_tree, epv_leaf]
+    epv_semi_su_eq
+  exact key _ rfl
 
 /-- what `PrandtlMeyer_function` computes: the standard function plus the defect
 arctan √(M²-1) - arctan (M²-1)  (the code applies arctan to M²-1 instead of to its square root) -/
 theorem pm_coded (p : R2PM.P) (hg : 1 < p.g) :
     R2PM.nu p = nu p.g p.Ms
       + (Real.arctan (Real.sqrt (p.Ms ^ 2 - 1)) - Real.arctan (p.Ms ^ 2 - 1)) := by
+  have h1 := pm_first_term p.g (p.Ms ^ 2 - 1) hg
   simp only [epv_tree, epv_leaf, nu]
-  rw [pm_first_term _ _ hg, Real.rpow_two]
-  ring
+  rw [← h1]
+  epv_semi_su_eq
 
 /-- **C19, fan turning, as far as it holds**: the reported turning is ν(M₀) - ν(M) of the STANDARD
 Prandtl–Meyer function plus the difference of the defects at the two ends -/
